@@ -30,6 +30,10 @@ for _t in (T1, T2, T3, T4, T5, T6, T7):
             _u.append(_l)
 TU = _u
 THEMES["TU"] = TU
+# union alphabet for FRAGMENT mode: without the letters that open foreign content, because the June-2020 text
+# of the HTML-breakout rule has a fragment-case clause whose reading I could not settle offline (DESIGN section 9)
+TUF = [l for l in TU if l not in ("<svg>", "<math>")]
+THEMES["TUF"] = TUF
 
 CTX = ["div", "body", "head", "html", "title", "textarea", "style", "script", "xmp", "iframe", "noembed", "noframes",
        "noscript", "plaintext", "table", "tbody", "tfoot", "thead", "tr", "td", "th", "caption", "colgroup", "select",
